@@ -321,8 +321,17 @@ def rejected (st : St) : String :=
 
 /-- The ordering clause of C03 on the case's event log, with the typed monitor `Order.orderClause`
 (`Order.fan_monitor_accepts_runs`, `Order.sound_*`). -/
+def orderJudge (st : St) : Option Clause :=
+  if st.np > 1 then orderClause (cfgOf st) ((fanEvents st).map (·.2))
+  else
+    -- one client, one server: each direction is a pair of its own (no notifying method couples them), judged
+    -- on its own events with the single-pair configuration (`Order.pair_monitor_accepts_runs`,
+    -- `Order.pair_monitor_accepts_ephemeral_runs`)
+    let cfg : Cfg := { kind := kindFn st.msgs, pair := fun _ => 0, copies := fun _ => [], grp := fun _ => none }
+    [0, 1].findSome? fun p => orderClause cfg ((eventsOf st.msgs p).map fun e => FEv.msg e.2)
+
 def orderText (st : St) : Option String :=
-  (orderClause (cfgOf st) ((fanEvents st).map (·.2))).map fun cl =>
+  (orderJudge st).map fun cl =>
     let find (k : Nat) := st.msgs.find? fun m => m.id == k
     let name := nameOf st.msgs
     let render (i j : Nat) (tail : String) (f14 : Bool := true) : String :=
